@@ -19,7 +19,7 @@ CFG = dict(
                  "5": "the server wrote an envelope of its own that the protocol does not call for",
                  "6": "the read loop was blocked or the connection ended in a conversation without faults whose handlers consume their input"},
     rule="lock-step in synctest bubbles (real goat.Server.Serve on a scripted transport, handler bodies gated by the schedule; one action, "
-         "synctest.Wait, snapshot): ALL envelope sequences of length <= 2 plus a seeded third of those of length 3 (quick: ~8.1 thousand; the full 22.8 thousand of length <= 3 take ~30 s on an idle machine but several minutes on the loaded one) / ALL of length <= 3 plus a seeded sample of 4000 of the 6.1*10^5 sequences of length 4 (thorough) over an alphabet of 28 envelope shapes (each field "
+         "synctest.Wait, snapshot): ALL envelope sequences of length <= 2 plus a seeded quarter of those of length 3 (quick: ~11 thousand; the full 40.5 thousand of length <= 3 take ~30 s on an idle machine but several minutes on the loaded one) / ALL of length <= 3 plus a seeded sample of 8000 of the 1.3*10^6 sequences of length 4 (thorough) over an alphabet of 34 envelope shapes (incl. the envelope's SOURCE: empty, the server's own name, long non-ASCII, on the reset paths, an opener and a unary request) (each field "
          "present / absent / undecodable, 2 stream ids, unary and stream methods, wrong destination, 4 kinds of bad method string, unknown "
          "service / method, body / trailer / reset / other-type reset for unknown and open ids, duplicate opens, undecodable bodies), each "
          "followed by a valid unary probe whose reply must arrive; seeded random sequences of length 4..40; field-level mutations of valid "
